@@ -195,3 +195,44 @@ func (n *Node) Compact() string {
 	}
 	return Join(toks, seps)
 }
+
+// CompactText re-spells a formula text with every optional separator removed:
+// the same tokens, no trivia between two tokens unless they would merge (then
+// one space) or the original trivia contained a line break (kept verbatim,
+// line breaks can matter). ok is false when the text does not tokenise cleanly.
+func CompactText(text string) (string, bool) {
+	lr := Lex([]byte(text))
+	if lr.Err || len(lr.Tokens) == 0 {
+		return "", false
+	}
+	toks := lr.Tokens[:len(lr.Tokens)-1]
+	ptoks := make([]PTok, 0, len(toks))
+	seps := make([]string, len(toks)+1)
+	prevEnd := 0
+	for i, t := range toks {
+		if t.Unspec {
+			return "", false
+		}
+		lex := text[t.Pos:t.End]
+		trivia := text[prevEnd:t.Pos]
+		hasNL := false
+		for _, r := range trivia {
+			if IsNL(r) {
+				hasNL = true
+			}
+		}
+		switch {
+		case hasNL:
+			seps[i] = trivia
+		case i > 0:
+			prev := ptoks[i-1].Text
+			pl := Lex([]byte(prev + lex))
+			if pl.Err || len(pl.Tokens) != 3 || pl.Tokens[0].End != len(prev) {
+				seps[i] = " "
+			}
+		}
+		ptoks = append(ptoks, PTok{Text: lex})
+		prevEnd = t.End
+	}
+	return Join(ptoks, seps), true
+}
